@@ -752,8 +752,11 @@ func (ar *asyncRunner) start(nArgs int) {
 	defer ar.gen.dropMarkerOnPanic(&entered)
 	ar.vmCall(r.vm, nArgs)
 	res, resType, ex := ar.gen.step()
-	entered = true
+	// ar.step() can run user code (a `then` or `constructor` getter reached through promiseResolve()/resolve()), so an
+	// uncatchable exception may still leave from here: the marker frame must be dropped in that case too, otherwise the
+	// call stack is not unwound and the Runtime never drains its promise job queue again.
 	ar.step(res, resType == resultNormal, ex)
+	entered = true
 	if ex != nil {
 		r.vm.sp = sp - nArgs - 2
 	}
